@@ -189,7 +189,8 @@ var volatileNotes = []string{
 	"upstream request: Authorization and Impersonate-* dropped (identity, property C02); X-Verif-Case (the harness's correlation header) must arrive like any end-to-end header",
 	"client response: Content-Length dropped (framing; body compared), Transfer-Encoding consumed by net/http",
 	"client response: Date dropped when the upstream sent none (net/http's server adds it)",
-	"client response: Content-Type dropped when the upstream sent none (net/http's server sniffs one)",
+	"client response: Content-Type dropped when the upstream sent none (net/http's server sniffs one) and on 304 (net/http's server suppresses it)",
+	"upstream request: only the first User-Agent value is compared (net/http's transport writes one User-Agent line)",
 	"client response: the value `close` of Connection dropped (written by net/http's server / the CloseConnectionWhenIdle gate for the gateway's own hop)",
 }
 
@@ -218,6 +219,7 @@ func canonUp(r ReqSpec, s *e2e.Seen) *SeenUp {
 			if ok, v := clientHas(r, k); !ok || v == "" {
 				continue
 			}
+			vv = vv[:1]
 		}
 		h[k] = vv
 	}
@@ -240,7 +242,7 @@ func canonClient(u UpSpec, resp *e2e.Response) *SeenClient {
 		case "Content-Length":
 			continue
 		case "Date", "Content-Type":
-			if !upHas(u, k) {
+			if !upHas(u, k) || (k == "Content-Type" && resp.StatusCode == 304) {
 				continue
 			}
 		case "Connection":
